@@ -6,6 +6,7 @@
 -/
 import GeonumModel.Lemmas.Shift
 import GeonumModel.Lemmas.AngleStep
+import GeonumModel.Lemmas.ExactAdd
 
 set_option linter.unusedSectionVars false
 set_option linter.unusedVariables false
@@ -118,9 +119,38 @@ theorem projectToDimension_shift (g : Geonum F) (k n : Nat) (hk : k + 4 * n < 2 
 
 end S
 
-/-! PARTIAL: "the Cartesian value of sums is unchanged" is an E-tier/tolerance statement (the float sum re-encodes its
-    direction through `blade_sum·π/2`, whose ulp grows with the blade count); it is explored by the oracle clause
-    `oracle.C08.shift` with the ulp-aware tolerance, not proved. -/
+/-! ### E-tier: the Cartesian value of sums under whole-turn shifts -/
+section E
+open GeonumModel.Exact FloatSpec
+
+theorem cart_shift4 (g : Geonum ℝ) (n : ℕ) : cart (g.shift4 n) = cart g := by
+  show polar g.mag (T (g.angle.shift4 n)) = polar g.mag (T g.angle)
+  have : T (g.angle.shift4 n) = T g.angle + ((n : ℤ) : ℝ) * (2 * Real.pi) := by
+    unfold T Angle.shift4; push_cast; ring
+  rw [this, polar_add_turns]
+
+/-- (E) adding whole turns to either or both summands changes the Cartesian value of the sum by at most twice the addition
+    tolerance (in exact arithmetic; the float code re-encodes through `blade_sum·π/2`, whose ulp grows with the shift — that
+    tolerance is what `oracle.C08.shift` uses) -/
+theorem sum_shift_cartesian {a b : Geonum ℝ} (n m : ℕ) (ha : a.angle.Inv) (hb : b.angle.Inv) (h0a : 0 ≤ a.mag) (h0b : 0 ≤ b.mag)
+    (hcb : (a.angle.blade + 4 * n) + (b.angle.blade + 4 * m) ≤ 2 ^ 40) :
+    ‖cart ((a.shift4 n).add (b.shift4 m)) - cart (a.add b)‖ ≤ 2 * (1 / 10 ^ 10 * (1 + a.mag + b.mag)) := by
+  have ha' : (a.shift4 n).angle.Inv := ha
+  have hb' : (b.shift4 m).angle.Inv := hb
+  have h1 := add_refines ha' hb' (show 0 ≤ (a.shift4 n).mag from h0a) (show 0 ≤ (b.shift4 m).mag from h0b) hcb
+  have h2 := add_refines ha hb h0a h0b (by omega)
+  rw [cart_shift4, cart_shift4] at h1
+  have hm1 : (a.shift4 n).mag = a.mag := rfl
+  have hm2 : (b.shift4 m).mag = b.mag := rfl
+  rw [hm1, hm2] at h1
+  have e : cart ((a.shift4 n).add (b.shift4 m)) - cart (a.add b)
+      = (cart ((a.shift4 n).add (b.shift4 m)) - (cart a + cart b)) - (cart (a.add b) - (cart a + cart b)) := by ring
+  rw [e]
+  calc ‖(cart ((a.shift4 n).add (b.shift4 m)) - (cart a + cart b)) - (cart (a.add b) - (cart a + cart b))‖
+      ≤ ‖cart ((a.shift4 n).add (b.shift4 m)) - (cart a + cart b)‖ + ‖cart (a.add b) - (cart a + cart b)‖ := norm_sub_le _ _
+    _ ≤ 2 * (1 / 10 ^ 10 * (1 + a.mag + b.mag)) := by linarith
+
+end E
 
 example : (⟨(1 : Nat), (⟨(0 : Nat), 3⟩ : Angle Nat)⟩ : Geonum Nat).mag = 1 := rfl
 
